@@ -49,6 +49,7 @@ def to_scenario(hist, K, name):
     expect = []          # (model entry) per expected return, in order
     susp = False
     serial = 0
+    held = True          # the script holds a connection handle (dead or alive)
     for idx, h in enumerate(hist):
         a = h["a"]
         nxt = hist[idx + 1]["a"] if idx + 1 < len(hist) else ""
@@ -98,8 +99,12 @@ def to_scenario(hist, K, name):
                 expect.append({"a": "cancel"})
             steps.append({"e": "drop"})
             susp = False
+            held = False
         elif a == "conn":
             ska = h["p"] // 1000
+            if held:             # the previous connection ended by a keep-alive timeout: the dead handle goes first
+                steps.append({"e": "drop"})
+            held = True
             steps += [{"e": "conn"}, {"e": "w", "acc": BIG}, {"e": "f", "r": "ok"},
                       {"e": "b", "bytes": [0x20, 6, 1, 0, 3, 0x13, ska >> 8, ska & 255]},
                       {"e": "r", "got": BIG}, {"e": "r", "got": BIG}, {"e": "r", "got": BIG}]
